@@ -225,11 +225,22 @@ func Run(c Cfg, choose Chooser, maxLabels int) Result {
 	}
 	for step := 0; step < maxLabels; step++ {
 		var opts []string
+		// the deadlines pending when the label is chosen (pt0 belongs to attempt ptIdx0)
+		var pt0 time.Duration
+		hasPT0, ptIdx0 := false, -1
 		if !started {
 			opts = append(opts, "S", "PFo", "PFc", "HG")
 		} else {
 			now := ex.Elapsed()
 			pt, gt, hasPT, hasGT := deadlines()
+			if hasPT {
+				pt0, hasPT0 = pt, true
+				for _, a := range ex.UpstreamAttempts() {
+					if a.Failed == "" {
+						ptIdx0 = a.Index
+					}
+				}
+			}
 			// deadlines already in the past without having been consumed: the timer (if armed) fired implicitly
 			next := time.Duration(1 << 60)
 			if hasPT && pt > now {
@@ -345,6 +356,25 @@ func Run(c Cfg, choose Chooser, maxLabels int) Result {
 			if (hasPT && pt <= now+2*time.Millisecond) || (hasGT && gt <= now+2*time.Millisecond) {
 				res.Skewed = true
 				break
+			}
+			// the per-try deadline pending before the label passed during it and MOSN reset that attempt: the timer
+			// fired inside the action or its settle (scheduler stall), not at a PT label
+			if hasPT0 && lb != "PT" && pt0 <= now+2*time.Millisecond && strings.Contains(","+Canon(ex.Trace())+",", fmt.Sprintf(",ur:%d,", ptIdx0)) {
+				res.Skewed = true
+				break
+			}
+		}
+	}
+	// confirm the final state is settled: nothing may move in a second window (when no deadline falls into it)
+	if ex != nil && !res.Skewed {
+		now := ex.Elapsed()
+		pt, gt, hasPT, hasGT := deadlines()
+		if ex.Done() || ((!hasPT || pt > now+3*settleWin) && (!hasGT || gt > now+3*settleWin)) {
+			before := len(ex.Trace())
+			d0 := ex.Done()
+			ex.WaitQuiescentFor(settleWin)
+			if len(ex.Trace()) != before || ex.Done() != d0 {
+				res.Skewed = true
 			}
 		}
 	}
